@@ -41,16 +41,16 @@ type PDB struct {
 }
 
 type Pool struct {
-	Name    string
-	Managed bool
-	ItsErr  bool
+	Name       string
+	Managed    bool
+	ItsErr     bool
 	ItsErrKind string // "" generic, "unevaluated" = cloudprovider.UnevaluatedNodePoolError
 	Replicas   int64  // value of Spec.Replicas when Static
-	Its     []string
-	Static  bool
-	After   *int64
-	Policy  string
-	TGP     *int64 // Spec.Template.Spec.TerminationGracePeriod (independent of the NodeClaims' own TGP)
+	Its        []string
+	Static     bool
+	After      *int64
+	Policy     string
+	TGP        *int64 // Spec.Template.Spec.TerminationGracePeriod (independent of the NodeClaims' own TGP)
 }
 
 type Claim struct {
